@@ -900,6 +900,37 @@ class Max(Reduction):
     def aggregate_kwargs(self):
         return dict(skipna=self.skipna, axis=self.axis)
 
+    @classmethod
+    def chunk(cls, df, **kwargs):
+        out = super().chunk(df, **kwargs)
+        if len(df) == 0:
+            # An empty partition has no extremum.  The NaN that pandas returns
+            # for it would turn integers into floats and win with skipna=False,
+            # so return something without rows that combine/aggregate drop
+            return out.iloc[:0] if is_dataframe_like(out) else df[:0]
+        return out
+
+    @staticmethod
+    def _drop_empty(inputs):
+        nonempty = [
+            x
+            for x in inputs
+            if not (is_dataframe_like(x) or is_series_like(x) or is_index_like(x))
+            or len(x) > 0
+        ]
+        return nonempty
+
+    @classmethod
+    def combine(cls, inputs: list, **kwargs):
+        nonempty = cls._drop_empty(inputs)
+        if not nonempty:
+            return inputs[0]
+        return super().combine(nonempty, **kwargs)
+
+    @classmethod
+    def aggregate(cls, inputs, **kwargs):
+        return super().aggregate(cls._drop_empty(inputs) or inputs[:1], **kwargs)
+
 
 class Min(Max):
     reduction_chunk = M.min
